@@ -140,14 +140,14 @@ def evalF (x p m : Float) : Expr → Float
   | ite c a b => if c.evalF x p m == 0 then b.evalF x p m else a.evalF x p m
 
 /-- The point lies on a switching point of the expression as it is evaluated in doubles: an `abs` / `sign`
-at zero or a comparison at equality on the evaluated path.  There the symbolic derivative `D` need not be
+at zero, a square root of zero or a comparison at equality on the evaluated path.  There the symbolic derivative `D` need not be
 the derivative (the differentiator's precondition `Defined` fails); the harness then compares the gradient
 handle with one-sided difference quotients instead. -/
 def onKink (x p m : Float) : Expr → Bool
   | var | data | param | const _ | pi => false
   | add a b | sub a b | mul a b | div a b | powReal a b => a.onKink x p m || b.onKink x p m
-  | neg a | powNat a _ | log a | exp a | lnot a | sqrt a => a.onKink x p m
-  | abs a | sign a => a.evalF x p m == 0 || a.onKink x p m
+  | neg a | powNat a _ | log a | exp a | lnot a => a.onKink x p m
+  | abs a | sign a | sqrt a => a.evalF x p m == 0 || a.onKink x p m
   | lt a b => a.evalF x p m == b.evalF x p m || a.onKink x p m || b.onKink x p m
   | ite c a b => c.onKink x p m || (if c.evalF x p m == 0 then b.onKink x p m else a.onKink x p m)
 
